@@ -11,6 +11,10 @@ from pathlib import Path
 
 sys.path.insert(0, str(Path(__file__).resolve().parent))
 os.environ.setdefault("FAKESNOW_VERIF", "1")
+# VERIF_REPO=<dir> points the harness at a scratch checkout of tekumara/fakesnow instead of /repo (development only)
+if os.environ.get("VERIF_REPO") and os.environ["VERIF_REPO"] != "/repo":
+    sys.path.insert(0, os.environ["VERIF_REPO"])
+    os.environ["PYTHONPATH"] = os.environ["VERIF_REPO"] + os.pathsep + os.environ.get("PYTHONPATH", "")
 
 from lib import common  # noqa: E402
 
